@@ -13,15 +13,23 @@ Full statement of the property over the model, for reference:
     ∧ every write of (call fn a).writes lies inside designated fn a    (writes_within_designated)
     ∧ the table invariant is preserved                                 (table_inv)
     ∧ (call fn a).alloc ≤ c · m.size + c'                              (table_space_bounded)
-Proved below: no_host_index_oob for poll_oneoff (false on the pinned tree: `poll_overflow_witness`, F15; full for the
-repaired variant; partial for the as-is variant), args_get/environ_get and the loop-free functions;
-footprint_in_bounds for poll_oneoff and the loop-free functions; the shape part of table_inv over all
-histories; table_space_bounded_partial (histories without InsertAt) and the witness that InsertAt is unbounded
-(`renumber_alloc_witness`, F16).  Not proved (monitored by the harness only): writes_within_designated as a
-theorem, footprint_in_bounds of the iovec walks, the bit⇔item part of table_inv.
+Proved below, first the per-function theorems of the first delivery (kept unchanged), then — "all 46 functions" —
+one theorem per statement quantified over the function name in `modelled`, for every argument tuple, memory image,
+descriptor table, host configuration and every alternative the host may select:
+  all_no_host_panic                       (46; repaired poll_oneoff — F15 witness `poll_overflow_witness`)
+  all_writes_in_memory_and_designated     (46; repaired sock_recv PEEK and readv — witnesses `sockRecv_peek_witness` = F61,
+                                           `readv_alias_witness` = F62)
+  all_failed_call_keeps_table             (46)
+  all_alloc_bounded                       (45; fd_renumber is unbounded — `renumber_alloc_witness`, F16)
+plus the shape part of table_inv over all histories and table_space_bounded_partial.  Not proved (checked on the real
+code only): footprint_in_bounds (`acc`) of the iovec walks and of args_get, the bit⇔item part of table_inv.
 -/
 import Wz.Proofs.C15_PollLoop
 import Wz.Proofs.C15_Table
+import Wz.Proofs.C15_Fs2W
+import Wz.Proofs.C15_All
+import Wz.Proofs.C15_W1
+import Wz.Proofs.C15_PollW
 
 namespace Wz.C15
 open Wz.Model Wz.Model.Wasi Wz.Model.DescTable Wz.Gen.Wasi
@@ -235,5 +243,441 @@ theorem insertAt_slots {α} (t : Table α) (x : α) (k : Int) (hk : 0 ≤ k) (h 
 theorem renumber_alloc_witness {α} (x : α) : slots (insertAt (empty : Table α) x 2147483647).1 = 2147483648 := by
   rw [slots_insertAt _ _ _ (by decide) shape_empty]
   simp [slots, empty]
+
+/-! ## the remaining 24 functions (`Wz.Model.WasiFs2`): fd_readdir, path_*, fd_*set*, fd_allocate/advise/sync, sock_*,
+proc_raise
+
+A call is answered by a list of alternatives (the host file system / the network selects one); every statement
+below holds for EVERY alternative, for every argument tuple (any naturals: the dispatcher reduces them to 32 / 64
+bits as the ABI does), every memory image, every descriptor table and every host configuration. -/
+
+/-- one constructor of `Fn2`: destructure the argument list and apply the function's lemma -/
+macro "fs2_case" hc:ident t:term : tactic =>
+  `(tactic| (simp only [call2e] at $hc:ident; split at $hc:ident <;>
+      first | (cases $hc:ident; done) | (simp only [Option.some.injEq] at $hc:ident; subst $hc:ident; exact $t)))
+
+theorem w32_lt (x : Nat) : w32 x < 4294967296 := by unfold w32; omega
+
+/-- `Fn2` enumerates exactly the names in `modelled2`, and the by-name dispatcher / region table agree with the
+enumerated ones. -/
+theorem fn2_names : Fn2.all.map Fn2.name = modelled2 := rfl
+
+theorem call2_by_name (fixedRecv fixedRead : Bool) (h : Host) (fds : Fds) (m : Mem) (f : Fn2) (a : List Nat) :
+    call2 fixedRecv fixedRead h fds m f.name a = call2e fixedRecv fixedRead h fds m f a := by cases f <;> rfl
+
+theorem designated_by_name (h : Host) (m : Mem) (f : Fn2) (a : List Nat) :
+    designated h m f.name a = designated2e m f a := by
+  cases f <;> simp [designated, Fn2.all, Fn2.name]
+
+/-- All of `Safe` at once, for both variants of sock_recv (the F61 defect is about WHERE it writes, not about
+host safety): no alternative is a host panic, every write lies inside the memory, an alternative that does not
+answer errno 0 leaves the descriptor table untouched, and the predicted host allocation is ≤ 512 bytes. -/
+theorem wasi_call_safe (fixedRecv fixedRead : Bool) (h : Host) (hh : HostNamesOk h) (fds : Fds) (m : Mem) (hb : Bytes m)
+    (hs : m.size < 9223372036854775808) (f : Fn2) (a : List Nat) (rs : List Res)
+    (hc : call2e fixedRecv fixedRead h fds m f a = some rs) : ∀ r ∈ rs, Safe m r := by
+  cases f
+  case fd_readdir => fs2_case hc (fdReaddir_safe h hh m fds _ _ _ _ _ (w32_lt _) (w32_lt _) (w32_lt _) hs)
+  case path_open => fs2_case hc (pathOpen_safe m fds _ _ _ _ _ (w32_lt _) hs)
+  case path_filestat_get => fs2_case hc (pathFilestatGet_safe m fds _ _ _ _ (w32_lt _) hs)
+  case path_readlink => fs2_case hc (pathReadlink_safe m fds _ _ _ _ _ _ (w32_lt _) hs)
+  case fd_fdstat_set_flags => fs2_case hc (fdFdstatSetFlags_safe m fds _ _)
+  case fd_filestat_set_size => fs2_case hc (fdFilestatSetSize_safe m fds _)
+  case fd_filestat_set_times => fs2_case hc (fdFilestatSetTimes_safe m fds _ _)
+  case path_filestat_set_times => fs2_case hc (pathFilestatSetTimes_safe m fds _ _ _ _)
+  case fd_allocate => fs2_case hc (fdAllocate_safe m fds _ _ _)
+  case fd_advise => fs2_case hc (fdAdvise_safe m fds _ _)
+  case fd_datasync => fs2_case hc (fdSyncLike_safe m fds _)
+  case fd_sync => fs2_case hc (fdSyncLike_safe m fds _)
+  case fd_fdstat_set_rights => fs2_case hc (allSafe_rE m enosys (by decide))
+  case path_create_directory => fs2_case hc (pathOp_safe m fds _ _ _)
+  case path_remove_directory => fs2_case hc (pathOp_safe m fds _ _ _)
+  case path_unlink_file => fs2_case hc (pathOp_safe m fds _ _ _)
+  case path_rename => fs2_case hc (pathOp2_safe m fds _ _ _ _ _ _)
+  case path_symlink => fs2_case hc (pathSymlink_safe m fds _ _ _ _ _)
+  case path_link => fs2_case hc (pathOp2_safe m fds _ _ _ _ _ _)
+  case sock_accept => fs2_case hc (sockAccept_safe m fds _ _ (w32_lt _) hs)
+  case sock_recv => fs2_case hc (sockRecv_safe _ _ m hb fds _ _ _ _ _ _ (w32_lt _) (w32_lt _) hs)
+  case sock_send => fs2_case hc (sockSend_safe m fds _ _ _ _ _ (w32_lt _) hs)
+  case sock_shutdown => fs2_case hc (sockShutdown_safe m fds _ _)
+  case proc_raise => fs2_case hc (allSafe_rE m enosys (by decide))
+
+/-- one constructor of `Fn2`, for the region statement -/
+macro "fs2_wcase" hc:ident t:term : tactic =>
+  `(tactic| (simp only [call2e] at $hc:ident; split at $hc:ident <;>
+      first | (cases $hc:ident; done)
+            | (simp only [Option.some.injEq] at $hc:ident; subst $hc:ident
+               simp only [designated2e, List.map]; exact $t)))
+
+/-- writes_within_designated, repaired variant of sock_recv: every write of every alternative lies inside the
+regions the signature designates (`designated`, the table the harness monitor uses, compared with spec.go on every
+generated case).  `m.size ≤ 2^32` is the wasm32 limit. -/
+theorem wasi_writes_within_designated (h : Host) (hh : HostNamesOk h) (fds : Fds) (m : Mem)
+    (hm : m.size ≤ 4294967296) (f : Fn2) (a : List Nat) (rs : List Res)
+    (hc : call2e true true h fds m f a = some rs) :
+    ∀ r ∈ rs, ∀ w ∈ r.writes, Wr.within w (designated2e m f (a.map w32)) := by
+  show Within rs _
+  cases f
+  case fd_readdir => fs2_wcase hc (fdReaddir_within h hh fds m _ _ _ _ _ (w32_lt _))
+  case path_open => fs2_wcase hc (pathOpen_within fds m _ _ _ _ _)
+  case path_filestat_get => fs2_wcase hc (pathFilestatGet_within fds m _ _ _ _)
+  case path_readlink => fs2_wcase hc (pathReadlink_within fds m _ _ _ _ _ _)
+  case fd_fdstat_set_flags => fs2_wcase hc (fdFdstatSetFlags_within fds _ _ _)
+  case fd_filestat_set_size => fs2_wcase hc (fdFilestatSetSize_within fds _ _)
+  case fd_filestat_set_times => fs2_wcase hc (fdFilestatSetTimes_within fds _ _ _)
+  case path_filestat_set_times => fs2_wcase hc (pathFilestatSetTimes_within fds m _ _ _ _ _)
+  case fd_allocate => fs2_wcase hc (fdAllocate_within fds _ _ _ _)
+  case fd_advise => fs2_wcase hc (fdAdvise_within fds _ _ _)
+  case fd_datasync => fs2_wcase hc (fdSyncLike_within fds _ _)
+  case fd_sync => fs2_wcase hc (fdSyncLike_within fds _ _)
+  case fd_fdstat_set_rights => fs2_wcase hc (within_rE _ _)
+  case path_create_directory => fs2_wcase hc (pathOp_within fds m _ _ _ _)
+  case path_remove_directory => fs2_wcase hc (pathOp_within fds m _ _ _ _)
+  case path_unlink_file => fs2_wcase hc (pathOp_within fds m _ _ _ _)
+  case path_rename => fs2_wcase hc (pathOp2_within fds m _ _ _ _ _ _ _)
+  case path_symlink => fs2_wcase hc (pathSymlink_within fds m _ _ _ _ _ _)
+  case path_link => fs2_wcase hc (pathOp2_within fds m _ _ _ _ _ _ _)
+  case sock_accept => fs2_wcase hc (sockAccept_within fds m _ _)
+  case sock_recv => fs2_wcase hc (sockRecv_within fds m _ _ _ _ _ _ (w32_lt _) hm)
+  case sock_send => fs2_wcase hc (sockSend_within fds m _ _ _ _ _)
+  case sock_shutdown => fs2_wcase hc (sockShutdown_within fds _ _ _)
+  case proc_raise => fs2_wcase hc (within_rE _ _)
+
+/-! ### the same statements by function name, through the dispatcher `call` of all 46 functions -/
+
+theorem modelled2_enumerated (fn : String) (hfn : fn ∈ modelled2) : ∃ f : Fn2, f.name = fn := by
+  unfold modelled2 at hfn
+  obtain ⟨f, _, hf⟩ := List.mem_map.1 hfn
+  exact ⟨f, hf⟩
+
+theorem call_by_name (fixed fixedRecv fixedRead : Bool) (h : Host) (fds : Fds) (m : Mem) (f : Fn2) (a : List Nat) :
+    call fixed fixedRecv fixedRead h fds m f.name a = call2e fixedRecv fixedRead h fds m f a := by
+  have h1 : call1 fixed fixedRead h fds m f.name a = none := by cases f <;> simp [call1, Fn2.name, Fn1.all, Fn1.name]
+  unfold call
+  rw [h1, call2_by_name]
+
+/-- no_host_index_oob for every function of `modelled2`: no alternative is a Go runtime error. -/
+theorem wasi_no_host_panic (fixed fixedRecv fixedRead : Bool) (h : Host) (hh : HostNamesOk h) (fds : Fds) (m : Mem)
+    (hb : Bytes m) (hs : m.size < 9223372036854775808) (fn : String) (hfn : fn ∈ modelled2) (a : List Nat)
+    (rs : List Res) (hc : call fixed fixedRecv fixedRead h fds m fn a = some rs) : ∀ r ∈ rs, r.err ≠ Err.panic := by
+  obtain ⟨f, rfl⟩ := modelled2_enumerated fn hfn
+  rw [call_by_name] at hc
+  exact fun r hr => (wasi_call_safe fixedRecv fixedRead h hh fds m hb hs f a rs hc r hr).noPanic
+
+/-- writes never extend beyond the memory. -/
+theorem wasi_writes_in_memory (fixed fixedRecv fixedRead : Bool) (h : Host) (hh : HostNamesOk h) (fds : Fds) (m : Mem)
+    (hb : Bytes m) (hs : m.size < 9223372036854775808) (fn : String) (hfn : fn ∈ modelled2) (a : List Nat)
+    (rs : List Res) (hc : call fixed fixedRecv fixedRead h fds m fn a = some rs) :
+    ∀ r ∈ rs, ∀ w ∈ r.writes, w.len = 0 ∨ w.off + w.len ≤ m.size := by
+  obtain ⟨f, rfl⟩ := modelled2_enumerated fn hfn
+  rw [call_by_name] at hc
+  exact fun r hr => (wasi_call_safe fixedRecv fixedRead h hh fds m hb hs f a rs hc r hr).inMem
+
+/-- a call that does not answer errno 0 (an errno, or "any"/"nz" of the host) leaves the descriptor table as it
+was; no exception among these 24 functions (path_open that fails with EFAULT inserts and closes the new
+descriptor again: the entries are the same). -/
+theorem wasi_failed_call_keeps_table (fixed fixedRecv fixedRead : Bool) (h : Host) (hh : HostNamesOk h) (fds : Fds) (m : Mem)
+    (hb : Bytes m) (hs : m.size < 9223372036854775808) (fn : String) (hfn : fn ∈ modelled2) (a : List Nat)
+    (rs : List Res) (hc : call fixed fixedRecv fixedRead h fds m fn a = some rs) :
+    ∀ r ∈ rs, r.err ≠ Err.errno 0 → r.fds = none := by
+  obtain ⟨f, rfl⟩ := modelled2_enumerated fn hfn
+  rw [call_by_name] at hc
+  exact fun r hr => (wasi_call_safe fixedRecv fixedRead h hh fds m hb hs f a rs hc r hr).table
+
+/-- the host allocation the model predicts is bounded by a linear function of the guest memory size (here even a
+constant: one growth step of the descriptor table, 64 slots of 8 bytes). -/
+theorem wasi_alloc_bounded (fixed fixedRecv fixedRead : Bool) (h : Host) (hh : HostNamesOk h) (fds : Fds) (m : Mem)
+    (hb : Bytes m) (hs : m.size < 9223372036854775808) (fn : String) (hfn : fn ∈ modelled2) (a : List Nat)
+    (rs : List Res) (hc : call fixed fixedRecv fixedRead h fds m fn a = some rs) : ∀ r ∈ rs, r.alloc ≤ 512 + 0 * m.size := by
+  obtain ⟨f, rfl⟩ := modelled2_enumerated fn hfn
+  rw [call_by_name] at hc
+  intro r hr
+  have := (wasi_call_safe fixedRecv fixedRead h hh fds m hb hs f a rs hc r hr).alloc
+  omega
+
+/-- writes_within_designated by name (repaired sock_recv). -/
+theorem wasi_writes_within_designated_by_name (fixed : Bool) (h : Host) (hh : HostNamesOk h) (fds : Fds) (m : Mem)
+    (hm : m.size ≤ 4294967296) (fn : String) (hfn : fn ∈ modelled2) (a : List Nat) (rs : List Res)
+    (hc : call fixed true true h fds m fn a = some rs) :
+    ∀ r ∈ rs, ∀ w ∈ r.writes, Wr.within w (designated h m fn (a.map w32)) := by
+  obtain ⟨f, rfl⟩ := modelled2_enumerated fn hfn
+  rw [call_by_name] at hc
+  rw [designated_by_name]
+  exact wasi_writes_within_designated h hh fds m hm f a rs hc
+
+/-! ### F61 and non-vacuity -/
+
+/-- an accepted connection at 4 besides stdio -/
+def connFds : Fds := (insertAt stdio Kind.conn 4).1
+/-- a memory whose first iovec names the 16 bytes at 256 -/
+def iovPage : Mem := { size := 65536, data := #[0, 1, 0, 0, 16, 0, 0, 0] }
+
+/-- F61: on the pinned tree sock_recv with RI_RECV_PEEK and ri_data_len = 0 has an alternative (data is waiting)
+that writes the 16 bytes at 256 named by the bytes at ri_data — outside the designated regions, which for
+ri_data_len = 0 are only the two result cells. -/
+theorem sockRecv_peek_witness :
+    ∃ r ∈ sockRecv false false connFds iovPage 4 0 0 1 16640 16704, ∃ w ∈ r.writes,
+      ¬ Wr.within w (designated2e iovPage Fn2.sock_recv [4, 0, 0, 1, 16640, 16704]) := by
+  have hmap : (sockRecv false false connFds iovPage 4 0 0 1 16640 16704).map (·.writes) =
+      [[], [Wr.region 256 16, Wr.region 16640 4, Wr.bytes 16704 [0, 0]]] := by decide
+  have hin : [Wr.region 256 16, Wr.region 16640 4, Wr.bytes 16704 [0, 0]] ∈
+      (sockRecv false false connFds iovPage 4 0 0 1 16640 16704).map (·.writes) := by rw [hmap]; simp
+  obtain ⟨r, hr, hrw⟩ := List.mem_map.1 hin
+  refine ⟨r, hr, Wr.region 256 16, by rw [hrw]; simp, ?_⟩
+  intro hw
+  obtain ⟨r, hr, h1, h2⟩ := hw 256 (by decide) (by decide)
+  simp only [designated2e, iovRegions, List.nil_append, List.mem_cons, List.not_mem_nil, or_false] at hr
+  rcases hr with rfl | rfl
+  · simp at h1
+  · simp at h1
+
+/-- a memory whose iovec array at 0 has two entries: the buffer of the first (8, 8) IS the second entry, which
+names (3000, 4) when the call starts -/
+def aliasPage : Mem := { size := 65536, data := #[8, 0, 0, 0, 8, 0, 0, 0, 184, 11, 0, 0, 4, 0, 0, 0] }
+/-- a host whose stdin delivers the bytes of the iovec (4096, 4) followed by "ABCD" -/
+def aliasHost : Host := { stdin := [0, 16, 0, 0, 4, 0, 0, 0, 65, 66, 67, 68] }
+
+/-- F62: on the pinned tree `readv` reads every iovec from the live memory: the 8 bytes read into the first buffer
+replace the second entry, and the next 4 bytes go to 4096 — a place that the iovec array named at call time
+(`designated`: (8,8), (3000,4), the result cell) does not contain.  The data, not the arguments, decide. -/
+theorem readv_alias_witness :
+    Wr.bytes 4096 [65, 66, 67, 68] ∈ (fdRead false aliasHost stdio aliasPage 0 0 2 16576).writes ∧
+    ¬ Wr.within (Wr.bytes 4096 [65, 66, 67, 68]) (designated1e aliasHost aliasPage Fn1.fd_read [0, 0, 2, 16576]) := by
+  refine ⟨by decide, ?_⟩
+  intro hw
+  obtain ⟨r, hr, h1, h2⟩ := hw 4096 (by decide) (by decide)
+  have hd : designated1e aliasHost aliasPage Fn1.fd_read [0, 0, 2, 16576] = [(8, 8), (3000, 4), (16576, 4)] := by
+    decide
+  rw [hd] at hr
+  simp only [List.mem_cons, List.not_mem_nil, or_false] at hr
+  rcases hr with rfl | rfl | rfl <;> simp at h1 h2 <;> omega
+
+/-- the repaired `readv` (iovec array copied at the start) fills the two buffers named at call time (test, sample) -/
+example : (fdRead true aliasHost stdio aliasPage 0 0 2 16576).writes =
+    [Wr.bytes 8 [0, 16, 0, 0, 4, 0, 0, 0], Wr.bytes 3000 [65, 66, 67, 68], Wr.bytes 16576 [12, 0, 0, 0]] := by decide
+
+/-- the repaired variant answers ro_datalen = 0 and writes nothing else (test, sample) -/
+example : (sockRecv true true connFds iovPage 4 0 0 1 16640 16704).map (·.writes) =
+    [[Wr.bytes 16640 [0, 0, 0, 0], Wr.bytes 16704 [0, 0]]] := by decide
+
+/-- the hypotheses are met by ordinary states: a memory of bytes, a host with short names -/
+example : Bytes iovPage := by
+  intro a
+  unfold Mem.get iovPage
+  by_cases h : a < 8
+  · have : a = 0 ∨ a = 1 ∨ a = 2 ∨ a = 3 ∨ a = 4 ∨ a = 5 ∨ a = 6 ∨ a = 7 := by omega
+    rcases this with rfl | rfl | rfl | rfl | rfl | rfl | rfl | rfl <;> decide
+  · simp [Array.getD, h]
+example : HostNamesOk { preEntries := [1, 5, 4], dirEntries := [1] } := by unfold HostNamesOk; decide
+example : "fd_readdir" ∈ modelled2 ∧ "sock_recv" ∈ modelled2 ∧ modelled2.length = 24 := by decide
+
+/-- descriptor table of the harness state `dir`: stdio, the pre-opened directory, a file, a directory -/
+def dirFds : Fds := (insertAt (insertAt (insertAt stdio Kind.pre 3).1 Kind.file 4).1 Kind.dir 5).1
+
+/-- non-vacuity of the dispatcher: fd_readdir of the sub-directory (".", "..", "g") into a 256-byte buffer writes
+76 bytes and bufused = 76; path_open has a successful alternative that hands out descriptor 6 (tests, samples) -/
+example : (call true true true { preEntries := [1, 5, 4], dirEntries := [1] } dirFds zeroPage "fd_readdir" [5, 8192, 256, 0, 16384]).map
+      (fun rs => rs.map (fun r => (r.err, r.writes)))
+    = some [(Err.errno 0, [Wr.region 8192 76, Wr.bytes 16384 [76, 0, 0, 0]])] := by decide
+/-- with the names known the dirents themselves are predicted: d_next = 1, 2, 3, d_namlen, d_type = directory,
+directory, regular file, and the names ".", "..", "g" (test, sample) -/
+example : (call true true true { dirEntries := [1], dirNames := [([103], 4)] } dirFds zeroPage "fd_readdir" [5, 8192, 256, 0, 16384]).map
+      (fun rs => rs.map (fun r => (r.err, r.writes.length, r.writes.getLast?)))
+    = some [(Err.errno 0, 11, some (Wr.bytes 16384 [76, 0, 0, 0]))] := by decide
+example : ((pathOpen dirFds zeroPage 3 2048 0 0 16384).map (fun r => (r.err, r.writes))) =
+    [(Err.errno 28, [])] := by decide   -- path_len = 0: EINVAL
+
+/-! ## all 46 functions: one theorem per statement, quantified over the function name in `modelled`
+
+`modelled = modelled1 ++ modelled2`; the first batch has one alternative per call.  Proved for all 46: no host panic
+(repaired poll_oneoff; `HostArgsOk`: the sizes of the host's argument and environment lists fit 32 bits), failed
+call keeps the table, allocation bounded (all but fd_renumber = F16, `renumber_alloc_witness`).  The two statements
+about WHERE a call writes are proved for the 24 functions of the second batch only (above); for the first batch they
+are checked on the real code by the harness (exact byte diff against the model; designated regions). -/
+
+theorem call1_by_name (fixed : Bool) (h : Host) (fds : Fds) (m : Mem) (f : Fn1) (a : List Nat) :
+    call1 fixed fixedRead h fds m f.name a = call1e fixed fixedRead h fds m f a := by
+  cases f <;> simp [call1, Fn1.all, Fn1.name]
+
+theorem call2_of_fn1 (fixedRecv fixedRead : Bool) (h : Host) (fds : Fds) (m : Mem) (f : Fn1) (a : List Nat) :
+    call2 fixedRecv fixedRead h fds m f.name a = none := by
+  cases f <;> simp [call2, Fn2.all, Fn2.name, Fn1.name]
+
+theorem modelled1_enumerated (fn : String) (hfn : fn ∈ modelled1) : ∃ f : Fn1, f.name = fn := by
+  unfold modelled1 at hfn
+  obtain ⟨f, _, hf⟩ := List.mem_map.1 hfn
+  exact ⟨f, hf⟩
+
+theorem call_fn1 (fixed fixedRecv fixedRead : Bool) (h : Host) (fds : Fds) (m : Mem) (f : Fn1) (a : List Nat) (rs : List Res)
+    (hc : call fixed fixedRecv fixedRead h fds m f.name a = some rs) : ∃ r, call1e fixed fixedRead h fds m f a = some r ∧ rs = [r] := by
+  unfold call at hc
+  rw [call1_by_name] at hc
+  split at hc
+  · rename_i r hr
+    exact ⟨r, hr, by simpa using hc.symm⟩
+  · rw [call2_of_fn1] at hc
+    cases hc
+
+/-- no host panic, first batch (repaired poll_oneoff) -/
+theorem call1e_no_host_panic (h : Host) (ha : HostArgsOk h) (fds : Fds) (m : Mem) (f : Fn1) (a : List Nat) (r : Res)
+    (hc : call1e true fixedRead h fds m f a = some r) : r.err ≠ Err.panic := by
+  cases f
+  case poll_oneoff => fs1_case hc (poll_no_host_index_oob _ _ _ _ _ _)
+  case fd_read => fs1_case hc (fdRead_ne_panic _ _ _ _ _ _ _ _)
+  case fd_pread => fs1_case hc (fdPread_ne_panic _ _ _ _ _ _ _)
+  case fd_write => fs1_case hc (fdWrite_ne_panic _ _ _ _ _ _)
+  case fd_pwrite => fs1_case hc (fdPwrite_ne_panic _ _ _ _ _ _)
+  case args_get => fs1_case hc (writeOffsetsAndValues_ne_panic _ _ _ _ ha.1 ha.2.1)
+  case environ_get => fs1_case hc (writeOffsetsAndValues_ne_panic _ _ _ _ ha.2.2.1 ha.2.2.2)
+  case args_sizes_get => fs1_case hc (write2xU32_ne_panic _ _ _ _ _)
+  case environ_sizes_get => fs1_case hc (write2xU32_ne_panic _ _ _ _ _)
+  case clock_res_get => fs1_case hc (clockResGet_ne_panic _ _ _ _)
+  case clock_time_get => fs1_case hc (clockTimeGet_ne_panic _ _ _ _)
+  case random_get => fs1_case hc (randomGet_ne_panic _ _ _)
+  case fd_prestat_get => fs1_case hc (fdPrestatGet_ne_panic _ _ _ _ _)
+  case fd_prestat_dir_name => fs1_case hc (prestatDirName_no_host_index_oob _ _ _ _ _ _)
+  case fd_renumber => fs1_case hc (renumber_ne_panic _ _ _ _)
+  case fd_close => fs1_case hc (fdClose_ne_panic _ _)
+  case fd_fdstat_get => fs1_case hc (statLike_ne_panic _ _ _ _ _)
+  case fd_filestat_get => fs1_case hc (statLike_ne_panic _ _ _ _ _)
+  case fd_seek => fs1_case hc (seekLike_ne_panic _ _ _ _)
+  case fd_tell => fs1_case hc (seekLike_ne_panic _ _ _ _)
+  case proc_exit => fs1_case hc (by simp)
+  case sched_yield => fs1_case hc (by simp)
+
+/-- **no_host_index_oob, all 46 functions**: whatever the arguments, the memory image and the descriptor table, no
+alternative of any call is a Go runtime error in the host (repaired poll_oneoff, either variant of sock_recv). -/
+theorem all_no_host_panic (fixedRecv fixedRead : Bool) (h : Host) (hh : HostNamesOk h) (ha : HostArgsOk h) (fds : Fds) (m : Mem)
+    (hb : Bytes m) (hs : m.size < 9223372036854775808) (fn : String) (hfn : fn ∈ modelled) (a : List Nat)
+    (rs : List Res) (hc : call true fixedRecv fixedRead h fds m fn a = some rs) : ∀ r ∈ rs, r.err ≠ Err.panic := by
+  unfold modelled at hfn
+  rcases List.mem_append.1 hfn with h1 | h2
+  · obtain ⟨f, rfl⟩ := modelled1_enumerated fn h1
+    obtain ⟨r, hr, rfl⟩ := call_fn1 true fixedRecv fixedRead h fds m f a rs hc
+    intro r' hr'
+    simp only [List.mem_cons, List.not_mem_nil, or_false] at hr'
+    subst hr'
+    exact call1e_no_host_panic h ha fds m f a _ hr
+  · exact wasi_no_host_panic true fixedRecv fixedRead h hh fds m hb hs fn h2 a rs hc
+
+/-- **descriptor table, all 46 functions**: an alternative that does not answer errno 0 leaves the descriptor table
+as it was (no exception; proc_exit, which closes everything, answers `exit`, and its model leaves the table to the
+engine). -/
+theorem all_failed_call_keeps_table (fixed fixedRecv fixedRead : Bool) (h : Host) (hh : HostNamesOk h) (fds : Fds) (m : Mem)
+    (hb : Bytes m) (hs : m.size < 9223372036854775808) (fn : String) (hfn : fn ∈ modelled) (a : List Nat)
+    (rs : List Res) (hc : call fixed fixedRecv fixedRead h fds m fn a = some rs) :
+    ∀ r ∈ rs, r.err ≠ Err.errno 0 → r.fds = none := by
+  unfold modelled at hfn
+  rcases List.mem_append.1 hfn with h1 | h2
+  · obtain ⟨f, rfl⟩ := modelled1_enumerated fn h1
+    obtain ⟨r, hr, rfl⟩ := call_fn1 fixed fixedRecv fixedRead h fds m f a rs hc
+    intro r' hr'
+    simp only [List.mem_cons, List.not_mem_nil, or_false] at hr'
+    subst hr'
+    exact call1e_table fixed fixedRead h fds m f a _ hr
+  · exact wasi_failed_call_keeps_table fixed fixedRecv fixedRead h hh fds m hb hs fn h2 a rs hc
+
+/-- **host allocation, 45 functions**: the allocation the model predicts is at most 512 bytes — a constant, a
+fortiori linear in the guest memory size.  fd_renumber is the exception (F16, `renumber_alloc_witness`). -/
+theorem all_alloc_bounded (fixed fixedRecv fixedRead : Bool) (h : Host) (hh : HostNamesOk h) (fds : Fds) (m : Mem)
+    (hb : Bytes m) (hs : m.size < 9223372036854775808) (fn : String) (hfn : fn ∈ modelled) (hne : fn ≠ "fd_renumber")
+    (a : List Nat) (rs : List Res) (hc : call fixed fixedRecv fixedRead h fds m fn a = some rs) :
+    ∀ r ∈ rs, r.alloc ≤ 512 + 0 * m.size := by
+  unfold modelled at hfn
+  rcases List.mem_append.1 hfn with h1 | h2
+  · obtain ⟨f, rfl⟩ := modelled1_enumerated fn h1
+    obtain ⟨r, hr, rfl⟩ := call_fn1 fixed fixedRecv fixedRead h fds m f a rs hc
+    intro r' hr'
+    simp only [List.mem_cons, List.not_mem_nil, or_false] at hr'
+    subst hr'
+    have hf : f ≠ Fn1.fd_renumber := by
+      intro hf
+      subst hf
+      exact hne rfl
+    rw [call1e_alloc fixed fixedRead h fds m f hf a _ hr]
+    omega
+  · exact wasi_alloc_bounded fixed fixedRecv fixedRead h hh fds m hb hs fn h2 a rs hc
+
+/-- one constructor of `Fn1`, for the two statements about where a call writes -/
+macro "fs1_wcase" hc:ident t:term : tactic =>
+  `(tactic| (simp only [call1e] at $hc:ident; split at $hc:ident <;>
+      first | (cases $hc:ident; done)
+            | (simp only [Option.some.injEq] at $hc:ident; subst $hc:ident
+               simp only [designated1e, List.map]; exact $t)))
+
+theorem designated_by_name1 (h : Host) (m : Mem) (f : Fn1) (a : List Nat) :
+    designated h m f.name a = designated1e h m f a := by
+  cases f <;> simp [designated, Fn2.all, Fn2.name, Fn1.all, Fn1.name]
+
+/-- where the first batch writes: inside the memory and inside the designated regions — all 22 functions
+(repaired `readv`, F62; `readv_alias_witness` shows the statement is false for fd_read on the pinned tree; either
+variant of poll_oneoff). -/
+theorem call1e_writes (fixed : Bool) (h : Host) (ha : HostArgsOk h) (fds : Fds) (m : Mem) (hb : Bytes m)
+    (hs : m.size < 9223372036854775808) (f : Fn1) (a : List Nat) (r : Res)
+    (hc : call1e fixed true h fds m f a = some r) : Wr1 m (designated1e h m f (a.map w32)) r := by
+  cases f
+  case poll_oneoff => fs1_wcase hc (pollOneoff_wr1 fixed fds m _ _ _ _ (w32_lt _) (w32_lt _) hs)
+  case fd_read => fs1_wcase hc (fdRead_wr1 h fds m hb _ _ _ _ (w32_lt _) (w32_lt _) hs)
+  case fd_pread => fs1_wcase hc (fdPread_wr1 fds m hb _ _ _ _ (w32_lt _) (w32_lt _) hs)
+  case fd_write => fs1_wcase hc (fdWrite_wr1 fds m _ _ _ _ (w32_lt _) hs)
+  case fd_pwrite => fs1_wcase hc (fdPwrite_wr1 fds m _ _ _ _ (w32_lt _) hs)
+  case args_get => fs1_wcase hc (writeOffsetsAndValues_wr1 m h.args _ _ ha.1 ha.2.1 (w32_lt _) (w32_lt _) hs)
+  case environ_get => fs1_wcase hc (writeOffsetsAndValues_wr1 m h.env _ _ ha.2.2.1 ha.2.2.2 (w32_lt _) (w32_lt _) hs)
+  case args_sizes_get => fs1_wcase hc (write2xU32_wr1 m _ _ _ _ (w32_lt _) (w32_lt _) hs)
+  case environ_sizes_get => fs1_wcase hc (write2xU32_wr1 m _ _ _ _ (w32_lt _) (w32_lt _) hs)
+  case clock_res_get => fs1_wcase hc (clockResGet_wr1 h m _ _ (w32_lt _) hs)
+  case clock_time_get => fs1_wcase hc (clockTimeGet_wr1 h m _ _ (w32_lt _) hs)
+  case random_get => fs1_wcase hc (randomGet_wr1 m _ _ (w32_lt _) (w32_lt _) hs)
+  case fd_prestat_get => fs1_wcase hc (fdPrestatGet_wr1 h fds m _ _ (w32_lt _) hs)
+  case fd_prestat_dir_name => fs1_wcase hc (fdPrestatDirName_wr1 h fds m _ _ _ (w32_lt _) (w32_lt _) hs)
+  case fd_renumber => fs1_wcase hc (renumber_wr1 _ fds m _ _)
+  case fd_close => fs1_wcase hc (fdClose_wr1 fds m _)
+  case fd_fdstat_get => fs1_wcase hc (statLike_wr1 fds m _ _ 24 (w32_lt _) (by decide) hs)
+  case fd_filestat_get => fs1_wcase hc (statLike_wr1 fds m _ _ 64 (w32_lt _) (by decide) hs)
+  case fd_seek => fs1_wcase hc (seekLike_wr1 fds m _ _ (w32_lt _) hs)
+  case fd_tell => fs1_wcase hc (seekLike_wr1 fds m _ _ (w32_lt _) hs)
+  case proc_exit => fs1_wcase hc (wr1_nil _ _ _ rfl)
+  case sched_yield => fs1_wcase hc (wr1_nil _ _ _ rfl)
+
+/-- **where a call writes, all 46 functions** (repaired sock_recv PEEK = F61 and readv = F62; either variant of
+poll_oneoff): every write of every alternative lies inside the memory AND inside the regions `designated` gives for
+the function (the table that mirrors spec.go).  `m.size ≤ 2^32` is the wasm32 limit. -/
+theorem all_writes_in_memory_and_designated (fixed : Bool) (h : Host) (hh : HostNamesOk h) (ha : HostArgsOk h)
+    (fds : Fds) (m : Mem) (hb : Bytes m) (hm : m.size ≤ 4294967296) (fn : String) (hfn : fn ∈ modelled)
+    (a : List Nat) (rs : List Res) (hc : call fixed true true h fds m fn a = some rs) :
+    ∀ r ∈ rs, ∀ w ∈ r.writes, (w.len = 0 ∨ w.off + w.len ≤ m.size) ∧ Wr.within w (designated h m fn (a.map w32)) := by
+  have hs : m.size < 9223372036854775808 := by omega
+  unfold modelled at hfn
+  rcases List.mem_append.1 hfn with h1 | h2
+  · obtain ⟨f, rfl⟩ := modelled1_enumerated fn h1
+    obtain ⟨r, hr, rfl⟩ := call_fn1 fixed true true h fds m f a rs hc
+    have := call1e_writes fixed h ha fds m hb hs f a r hr
+    intro r' hr' w hw
+    simp only [List.mem_cons, List.not_mem_nil, or_false] at hr'
+    subst hr'
+    rw [designated_by_name1]
+    exact ⟨this.1 w hw, this.2 w hw⟩
+  · intro r hr w hw
+    exact ⟨wasi_writes_in_memory fixed true true h hh fds m hb hs fn h2 a rs hc r hr w hw,
+      wasi_writes_within_designated_by_name fixed h hh fds m hm fn h2 a rs hc r hr w hw⟩
+
+example : modelled.length = 46 ∧ modelled.Nodup := by decide
+
+theorem zeroPage_bytes : Bytes zeroPage := by
+  intro a
+  simp [Mem.get, zeroPage]
+
+/-- the side conditions of the all-46 theorems are met by an ordinary state (the harness state `dir` on a zeroed
+page, an empty host configuration): the theorems apply to, e.g., path_open and fd_read there -/
+example (rs : List Res) (hc : call true true true {} dirFds zeroPage "path_open" [3, 0, 2048, 5, 0, 0, 0, 0, 16384] = some rs) :
+    ∀ r ∈ rs, ∀ w ∈ r.writes, (w.len = 0 ∨ w.off + w.len ≤ zeroPage.size) ∧
+      Wr.within w (designated {} zeroPage "path_open" ([3, 0, 2048, 5, 0, 0, 0, 0, 16384].map w32)) :=
+  all_writes_in_memory_and_designated true {} (by unfold HostNamesOk; decide) (by unfold HostArgsOk nulSize; decide)
+    dirFds zeroPage zeroPage_bytes (by decide) "path_open" (by decide) _ rs hc
+example (rs : List Res) (hc : call true false false {} dirFds zeroPage "fd_read" [4, 0, 2, 16384] = some rs) :
+    ∀ r ∈ rs, r.err ≠ Err.panic :=
+  all_no_host_panic false false {} (by unfold HostNamesOk; decide) (by unfold HostArgsOk nulSize; decide)
+    dirFds zeroPage zeroPage_bytes (by decide) "fd_read" (by decide) _ rs hc
+example : HostArgsOk { args := [[112, 114, 111, 103], [45, 120]], env := [[65, 61, 98]] } := by
+  unfold HostArgsOk nulSize; decide
 
 end Wz.C15
